@@ -19,6 +19,8 @@ package vault
 // Sequential ops (one core): probe <path> <op> => allowed|denied (what W's policy grants); expiry => class.
 
 import (
+	"github.com/openbao/openbao/v2/internal/helper/namespace"
+	"context"
 	"strings"
 	"testing"
 	"time"
@@ -336,6 +338,14 @@ func c18History(t *testing.T, out *vh.Out, rng *vh.Rand, rounds int) {
 	}
 	other := vhCreateToken(t, c, root, map[string]any{"ttl": "1h", "policies": []string{"default", "c19"}})
 	ttls := []time.Duration{time.Hour, 30 * time.Minute, 90 * time.Second, 7 * time.Minute}
+	if cl, _ := vhReq(c, logical.UpdateOperation, "sys/namespaces/c18ns", root, nil); cl != "ok" {
+		t.Fatalf("namespace c18ns: %s", cl)
+	}
+	nsObj, nerr := c.namespaceStore.GetNamespaceByPath(vhRootCtx(), "c18ns/")
+	if nerr != nil || nsObj == nil {
+		t.Fatalf("namespace c18ns: %v", nerr)
+	}
+	nsCtx := namespace.ContextWithNamespace(context.Background(), nsObj)
 	do := func(req *logical.Request) (*logical.Response, error) {
 		req.SetTokenEntry(nil)
 		return c.HandleRequest(vhRootCtx(), req)
@@ -362,7 +372,19 @@ func c18History(t *testing.T, out *vh.Out, rng *vh.Rand, rounds int) {
 		req := c18WrapReq(kind, root)
 		req.WrapInfo = &logical.RequestWrapInfo{TTL: ttl}
 		t0 := time.Now().Add(-time.Second)
-		resp, err := do(req)
+		var resp *logical.Response
+		var err error
+		if round%3 == 2 {
+			// the response is wrapped in a CHILD namespace (its wrapping token and cubbyhole live there); every later
+			// lookup / rewrap / unwrap comes in through the root namespace with the token in the body
+			req = &logical.Request{Operation: logical.UpdateOperation, Path: "sys/wrapping/wrap", ClientToken: root,
+				Data: map[string]any{"value": c18Canary}, WrapInfo: &logical.RequestWrapInfo{TTL: ttl}}
+			kind = "secret"
+			req.SetTokenEntry(nil)
+			resp, err = c.HandleRequest(nsCtx, req)
+		} else {
+			resp, err = do(req)
+		}
 		out.Reset()
 		if err != nil || resp == nil || resp.WrapInfo == nil || resp.WrapInfo.Token == "" {
 			out.Op("nowrap:"+class(resp, err), "hist", req.Path, vh.I(int64(ttl/time.Second)))
